@@ -285,7 +285,9 @@ def hist_key(hist):
 # value types the format can carry
 INTS = [0, -7, 2 ** 31, 2 ** 53 + 1, 10 ** 30, -10 ** 18, 10 ** 310]
 FLOATS = [0.1, -0.0, 1.0, 1e22, 5e-324, float("inf"), -float("inf"), 1.7976931348623157e308, 123456.789e-5, 2.5]
-STRINGS = ["abc", "", "P21/c", "e5", "x-y", "1.2.3", "--1", "0x10"]
+STRINGS = ["abc", "", "P21/c", "e5", "x-y", "1.2.3", "--1", "0x10",
+           # numbers in other conventions (Fortran D exponent, binary, complex, thousands separators, words) that Python's int()/float() reject
+           "7d2", "1D5", "1.5405D-01", "2D", "0b1", "1j", "1,5", "TRUE", "None", "1e", "e", "+", "1_0_"]
 NUMSTR = ["12", "-3", "+4", "2.50", "1e3", ".5", "007", " 8"]
 
 
